@@ -66,13 +66,6 @@ theorem prefix_snoc {h0 h : Heap α} (hp : h0 <+: h) (x : List α) : h0 <+: h ++
 
 /-! ### well-formed slices -/
 
-/-- the slice header describes a window of an existing array (a dangling header is allowed when
-its capacity is 0 — the `nil` slice) -/
-def WF (h : Heap α) (s : Slice) : Prop := s.len ≤ s.cap ∧ s.off + s.cap ≤ (h.get s.arr).length
-
-/-- `s` is not part of `h0`: its array was allocated later, or it owns no cell at all -/
-def Fresh (n : Nat) (s : Slice) : Prop := n ≤ s.arr ∨ s.cap = 0
-
 theorem wf_mono {h0 h : Heap α} (hp : h0 <+: h) {s : Slice} (hw : WF h0 s) : WF h s := by
   by_cases ha : s.arr < h0.length
   · unfold WF; rw [get_prefix hp ha]; exact hw
@@ -562,6 +555,135 @@ theorem insertLoop_spec (pos : List φ → φ → Nat) (hpos : ∀ l f, pos l f 
 
 end tables
 
+/-! ### FRAME, without any hypothesis on the slices involved
+
+Every write of the current operations goes into an array the operation allocated itself (or, for
+`append` on the `nil` slice, nowhere); this needs no well-formedness of the arguments. -/
+
+section frame
+variable {β : Type} [Inhabited β]
+
+theorem frame_mk {h0 h : Heap β} (hp : h0 <+: h) (n c : Nat) :
+    h0 <+: (mk h n c).2 ∧ h0.length ≤ (mk h n c).1.arr :=
+  ⟨prefix_snoc hp _, hp.length_le⟩
+
+theorem frame_append (g : Grow) {h0 h : Heap β} {s : Slice} (hp : h0 <+: h)
+    (hf : Fresh h0.length s) (xs : List β) :
+    h0 <+: (append g h s xs).2 ∧ Fresh h0.length (append g h s xs).1 := by
+  unfold Heap.append
+  split
+  · rename_i hfit
+    cases hf with
+    | inl ha => exact ⟨prefix_write hp ha _ _, Or.inl ha⟩
+    | inr hc =>
+      have : xs = [] := by
+        cases xs with
+        | nil => rfl
+        | cons x xs => simp at hfit; omega
+      subst this
+      rw [write_nil]
+      exact ⟨hp, Or.inr hc⟩
+  · exact ⟨prefix_snoc hp _, Or.inl hp.length_le⟩
+
+theorem frame_copy {h0 h : Heap β} (hp : h0 <+: h) {dst : Slice} (ha : h0.length ≤ dst.arr)
+    (xs : List β) : h0 <+: copy h dst xs := prefix_write hp ha _ _
+
+theorem frame_store {h0 h : Heap β} (hp : h0 <+: h) {s : Slice} (ha : h0.length ≤ s.arr) (i : Nat)
+    (x : β) : h0 <+: store h s i x := prefix_write hp ha _ _
+
+theorem spliceMem_frame (g : Grow) {h0 h : Heap β} (hp : h0 <+: h) (p : Slice) (pos : Nat) (q : Slice) :
+    h0 <+: (spliceMem g h p pos q).2 := by
+  have m := frame_mk hp 0 (p.len + q.len)
+  have a1 := frame_append g m.1 (Or.inl m.2) (read (mk h 0 (p.len + q.len)).2 (p.upto pos))
+  have a2 := frame_append g a1.1 a1.2 (read (append g (mk h 0 (p.len + q.len)).2 (mk h 0 (p.len + q.len)).1
+    (read (mk h 0 (p.len + q.len)).2 (p.upto pos))).2 q)
+  exact (frame_append g a2.1 a2.2 _).1
+
+theorem cutMem_frame {h0 h : Heap β} (hp : h0 <+: h) (q : Slice) (offset length : Nat) :
+    h0 <+: (cutMem h q offset length).2 := by
+  have m := frame_mk hp (q.len - length) (q.len - length)
+  exact frame_copy (frame_copy m.1 (dst := (mk h (q.len - length) (q.len - length)).1.upto offset) m.2 _)
+    (dst := (mk h (q.len - length) (q.len - length)).1.since offset) m.2 _
+
+theorem rotMem_frame (g : Grow) {h0 h : Heap β} (hp : h0 <+: h) (q : Slice) (m : Nat) :
+    h0 <+: (rotMem g h q m).2 := by
+  have m0 := frame_mk hp 0 q.len
+  have a1 := frame_append g m0.1 (Or.inl m0.2) (read (mk h 0 q.len).2 (q.since m))
+  exact (frame_append g a1.1 a1.2 _).1
+
+theorem subMem_frame {h0 h : Heap β} (hp : h0 <+: h) (q : Slice) (start end_ : Nat) :
+    h0 <+: (subMem h q start end_).2 := by
+  have m := frame_mk hp (end_ - start) (end_ - start)
+  exact frame_copy m.1 m.2 _
+
+theorem revMem_frame {h0 h : Heap β} (hp : h0 <+: h) (q : Slice) : h0 <+: (revMem h q).2 := by
+  have m := frame_mk hp q.len q.len
+  exact prefix_write (frame_copy m.1 m.2 _) m.2 _ _
+
+theorem replMem_frame (f : β → β) {h0 h : Heap β} (hp : h0 <+: h) (p : Slice) :
+    h0 <+: (replMem f h p).2 := by
+  have m := frame_mk hp p.len p.len
+  exact prefix_write m.1 m.2 _ _
+
+theorem catFold_frame (g : Grow) {h0 : Heap β} (tail : List Slice) (st : Slice × Heap β)
+    (hp : h0 <+: st.2) (hf : Fresh h0.length st.1) :
+    h0 <+: (tail.foldl (fun (st : Slice × Heap β) q => append g st.2 st.1 (read st.2 q)) st).2 := by
+  induction tail generalizing st with
+  | nil => exact hp
+  | cons q tail ih =>
+    have a := frame_append g hp hf (read st.2 q)
+    exact ih _ a.1 a.2
+
+theorem catMem_frame (g : Grow) {h0 h : Heap β} (hp : h0 <+: h) (head : Slice) (tail : List Slice) :
+    h0 <+: (catMem g h head tail).2 := by
+  have a := frame_append g hp (Or.inr rfl : Fresh h0.length Slice.nil) (read h head)
+  exact catFold_frame g tail _ a.1 a.2
+
+theorem tabInsert_frame (pos : List β → β → Nat) {h0 h : Heap β} (hp : h0 <+: h) (ff : Slice) (f : β) :
+    h0 <+: (tabInsert pos h ff f).2 ∧ h0.length ≤ (tabInsert pos h ff f).1.arr := by
+  have m := frame_mk hp (ff.len + 1) (ff.len + 1)
+  refine ⟨?_, m.2⟩
+  exact frame_copy (frame_store (frame_copy m.1 m.2 _) m.2 _ _)
+    (dst := (mk h (ff.len + 1) (ff.len + 1)).1.since (pos (read h ff) f + 1)) m.2 _
+
+theorem tabCopy_frame {h0 h : Heap β} (hp : h0 <+: h) (src : Slice) :
+    h0 <+: (tabCopy h src).2 ∧ h0.length ≤ (tabCopy h src).1.arr := by
+  have m := frame_mk hp src.len src.len
+  exact ⟨frame_copy m.1 m.2 _, m.2⟩
+
+theorem tabFilter_frame (p : β → Bool) {h0 h : Heap β} (hp : h0 <+: h) (ff : Slice) :
+    h0 <+: (tabFilter p h ff).2 ∧ h0.length ≤ (tabFilter p h ff).1.arr := by
+  have m := frame_mk hp ((read h ff).filter p).length ((read h ff).filter p).length
+  exact ⟨prefix_write m.1 m.2 _ _, m.2⟩
+
+theorem tabMapFresh_frame (T : β → β) {h0 h : Heap β} (hp : h0 <+: h) (src : Slice) :
+    h0 <+: (tabMapFresh T h src).2 := replMem_frame T hp src
+
+theorem mapLoop_frame (T : β → β) {h0 : Heap β} {s : Slice} (ha : h0.length ≤ s.arr) (n : Nat) :
+    ∀ (i : Nat) (h : Heap β), h0 <+: h → h0 <+: mapLoop T s n i h := by
+  induction n with
+  | zero => intro i h hp; exact hp
+  | succ n ih =>
+    intro i h hp
+    unfold mapLoop
+    split
+    · exact ih _ _ (frame_store hp ha _ _)
+    · exact hp
+
+theorem insertLoop_frame (pos : List β → β → Nat) (T : β → β) {h0 : Heap β} (src : Slice) (n : Nat) :
+    ∀ (i : Nat) (ff : Slice) (h : Heap β), h0 <+: h →
+      h0 <+: (insertLoop (tabInsert pos) T src n i ff h).2 := by
+  induction n with
+  | zero => intro i ff h hp; exact hp
+  | succ n ih =>
+    intro i ff h hp
+    unfold insertLoop
+    split
+    · exact ih _ _ _ (tabInsert_frame pos hp ff _).1
+    · exact hp
+
+end frame
+
 /-! ### the concrete position function -/
 
 theorem insertPos_le (ff : Table) (f : Feature) : insertPos ff f ≤ ff.length := by
@@ -576,5 +698,81 @@ theorem insertPos_le (ff : Table) (f : Feature) : insertPos ff f ≤ ff.length :
 theorem insPure_insertPos : insPure insertPos = Table.insert := by
   funext ff f
   rfl
+
+theorem rotAmount_nonneg (L n : Int) (hL : 0 < L) : 0 ≤ rotAmount L n := by
+  unfold rotAmount
+  apply Int.tmod_nonneg
+  by_cases hn : n < 0
+  · rw [if_pos hn]
+    have h1 := Int.emod_add_ediv_mul (-n + L - 1) L
+    have h2 := Int.emod_lt_of_pos (-n + L - 1) hL
+    generalize (-n + L - 1) / L * L = qL at *
+    omega
+  · rw [if_neg hn]; omega
+
+/-! ### results of helpers, results of operations -/
+
+/-- the result `r` of a helper: the heap extends `h0`, the returned slice is well formed and
+reads `v` -/
+structure Part {α : Type} (h0 : Heap α) (r : Slice × Heap α) (v : List α) : Prop where
+  pre : h0 <+: r.2
+  wf : WF r.2 r.1
+  rd : read r.2 r.1 = v
+
+theorem Owned.part {α : Type} {h0 : Heap α} {r : Slice × Heap α} {xs : List α}
+    (ho : Owned h0 r.2 r.1 xs) : Part h0 r xs := ⟨ho.pre, ho.wf, ho.rd⟩
+
+theorem Part.cast {α : Type} {h0 : Heap α} {r : Slice × Heap α} {v v' : List α} (p : Part h0 r v)
+    (e : v = v') : Part h0 r v' := e ▸ p
+
+section tables2
+variable {φ : Type} [Inhabited φ]
+
+theorem insertLoop_all (pos : List φ → φ → Nat) (hpos : ∀ l f, pos l f ≤ l.length) (T : φ → φ)
+    {h0 h : Heap φ} {src ff : Slice} (hsrc : WF h0 src) (hp : h0 <+: h) (hff : WF h ff) :
+    Part h0 (insertLoop (tabInsert pos) T src src.len 0 ff h)
+      (((read h0 src).map T).foldl (insPure pos) (read h ff)) := by
+  have := insertLoop_spec pos hpos T hsrc (read h0 src) [] ff h hp hff rfl
+  rw [length_read hsrc] at this
+  exact ⟨this.1, this.2.1, this.2.2⟩
+
+theorem mapLoop_all (T : φ → φ) {h0 h : Heap φ} {s : Slice} {xs : List φ} (ho : Owned h0 h s xs) :
+    Owned h0 (mapLoop T s s.len 0 h) s (xs.map T) := by
+  have hl := length_read ho.wf
+  rw [ho.rd] at hl
+  have := mapLoop_owned T xs [] h (by simpa using ho)
+  rw [hl] at this
+  simpa using this
+
+end tables2
+
+/-- FRAME + the result is well formed + REFINEMENT: the result reads as the value `v` -/
+structure Spec (w : World Feature) (r : MSeq × World Feature) (v : Seq) : Prop where
+  frame : Frame w r.2
+  wf : WFSeq r.2 r.1
+  rd : readSeq r.2 r.1 = v
+
+theorem Spec.cast {w : World Feature} {r : MSeq × World Feature} {v v' : Seq} (s : Spec w r v)
+    (e : v = v') : Spec w r v' := e ▸ s
+
+theorem Spec.ofParts {w : World Feature} {t : Slice × Heap Feature} {b : Slice × Heap UInt8}
+    {vt : List Feature} {vb : List UInt8} (pt : Part w.T t vt) (pb : Part w.B b vb) :
+    Spec w (⟨t.1, b.1⟩, ⟨b.2, t.2⟩) ⟨vt, vb⟩ :=
+  ⟨⟨pb.pre, pt.pre⟩, ⟨pt.wf, pb.wf⟩, by simp [readSeq, World.readTab, World.readDat, pt.rd, pb.rd]⟩
+
+theorem Frame.refl {φ : Type} (w : World φ) : Frame w w := ⟨List.prefix_refl _, List.prefix_refl _⟩
+
+theorem Frame.trans {φ : Type} {a b c : World φ} (h1 : Frame a b) (h2 : Frame b c) : Frame a c :=
+  ⟨h1.1.trans h2.1, h1.2.trans h2.2⟩
+
+theorem WFSeq.mono {φ : Type} {w w' : World φ} (hf : Frame w w') {s : MSeq} (hs : WFSeq w s) :
+    WFSeq w' s := ⟨wf_mono hf.2 hs.1, wf_mono hf.1 hs.2⟩
+
+theorem readSeq_mono {w w' : World Feature} (hf : Frame w w') {s : MSeq} (hs : WFSeq w s) :
+    readSeq w' s = readSeq w s := by
+  simp [readSeq, World.readTab, World.readDat, read_mono hf.2 hs.1, read_mono hf.1 hs.2]
+
+theorem len_readSeq {w : World Feature} {s : MSeq} (hs : WFSeq w s) : (readSeq w s).len = s.len := by
+  simp [Seq.len, readSeq, World.readDat, MSeq.len, length_read hs.2]
 
 end Gts.Mem
